@@ -58,7 +58,7 @@ ASSUMPTIONS = [
     "requires a degree-1 input, createNodeSetsFromSideSets requires sideSets not None: inadmissible combinations are "
     "not executed (counted as skipped branches); read_json_mesh returns blocks=None, so JSON meshes are not merged",
     "entities are identified across merge / read through exact coordinates (inputs have no coincident nodes)",
-    "empty node / side sets are outside the alphabet (a zero-length netCDF dimension cannot be written; see report)",
+    "empty side sets enter only through the merge mode equal-emptyss (a zero-length netCDF dimension cannot be written, so files never carry them)",
     "violating states are not expanded (one defect -> one key); a lossy merge is a transition failure and its "
     "result, if valid, is still expanded",
 ]
@@ -74,7 +74,10 @@ YEXT = [-0.5, 0.75]
 ORDERS = (2, 3, 4, 5)
 ELEV_FULL = [(p, b, c, n) for p in ORDERS for b in (0, 1) for c in (0, 1) for n in (0, 1)]
 ELEV_SUB = [(p, b, i % 2, (i // 2) % 2) for i, (p, b) in enumerate((p, b) for p in ORDERS for b in (0, 1))]
-MODES = ("disjoint", "equal", "absent")
+# equal-emptyss: as "equal", but the partner's first side set (which then shares its name with a populated set of the
+# first mesh) is EMPTY, as Surface.create_edges returns when nothing matches (added after a seeded change that let an
+# empty second set overwrite the first mesh's members went undetected)
+MODES = ("disjoint", "equal", "absent", "equal-emptyss")
 MAXD = 3
 CHUNK = 21
 CONTAINERS = {
@@ -559,7 +562,7 @@ def run_group(g, tier, seed, rec):
             return None
         out = {}
         for i, k in enumerate(sorted(d)):
-            if mode == "equal" and i < len(first_names):
+            if mode in ("equal", "equal-emptyss") and i < len(first_names):
                 out[first_names[i]] = d[k]
             else:
                 out["%s_%s" % (k, tag)] = d[k]
@@ -582,6 +585,8 @@ def run_group(g, tier, seed, rec):
         else:
             ns = rename(ppm["nodeSets"], names_of(m1.nodeSets), mode, tag)
             ss = rename(ppm["sideSets"], names_of(m1.sideSets), mode, tag)
+            if mode == "equal-emptyss" and ss:
+                ss[sorted(ss)[0]] = []
         coords2 = onp.asarray(ppm["coords"], dtype=float) + onp.array([4.0 * d, 0.25 * d])
         m2 = lib_mesh(coords2, ppm["vtris"], blocks, ns, ss)
         rec.branch("merge:mode=" + mode)
